@@ -74,7 +74,19 @@ def prompt3(pid: str) -> str:
     return base.replace("\n\nTASK:", extra + "\n\nTASK:", 1)
 
 
+def prompt4(pid: str) -> str:
+    """Round 4: as round 3 (with the longer already-tried list), emphasis on histories, aliasing and rarely used kinds."""
+    base = prompt3(pid).replace(f"/tmp/seed3-{pid}", f"/tmp/seed4-{pid}")
+    extra = """
+
+ADDITIONAL GUIDANCE FOR ROUND 4: three rounds of seeding have already covered the central functions, their helpers, the tables and the obvious boundary values. What has hardly been tried: (1) faults that need a HISTORY - an object that is built, then changed through two or three different setters or methods in a particular order, then asked; (2) sharing and aliasing - a list, dict or object handed out by one method and changed by another, a default argument or class attribute that is mutable, a copy that is not deep enough or too deep, an object adopted into a container and still referenced from outside; (3) rarely used object kinds and combinations - nested groups, `group-object` members, ASA platform, standard ACLs, empty containers, remarks next to entries, objects built from `data()` dictionaries or from `items=` instead of from text; (4) conditions that are true for every input the test-suite uses but not in general (a comparison that should be `<=`, a `startswith` that should be equality, a lookup by name that should be by identity or the reverse, an early `return`/`continue` on a value that is legitimately falsy); (5) error handling - a `try/except` that now also swallows a different error, an error raised after the object was already half updated, a warning path that skips more than the offending item. Choose mechanisms of these kinds."""
+    return base.replace("\n\nALREADY TRIED", extra + "\n\nALREADY TRIED", 1)
+
+
 if __name__ == "__main__":
+    if len(sys.argv) > 2 and sys.argv[2] == "4":
+        print(prompt4(sys.argv[1]))
+        sys.exit(0)
     if len(sys.argv) > 2 and sys.argv[2] == "3":
         print(prompt3(sys.argv[1]))
         sys.exit(0)
